@@ -36,6 +36,7 @@ func main() {
 			"hijacking modifiers are only attached to requests without a body, so that no unread request body is pending when the session is hijacked",
 			"'no further reads' is decided on bytes consumed from the client socket after the hijacker returned (the client sends a complete follow-up request), 'closes it' on the proxy calling Close on the socket it was given, both at quiescence",
 			"'once the exchange ends' is sampled when the request modifier runs for the next request of the same connection (previous non-CONNECT request), when the client has received the complete response and the proxy is blocked reading the idle connection again (non-CONNECT exchanges), and after all connections ended and every handler goroutine returned",
+			"'the request/response modifier' of an exchange is the pair installed through SetRequestModifier/SetResponseModifier when the request is sent; the pair is only replaced while every connection of the case is idle (proxy blocked reading it), so no exchange straddles the replacement",
 			"blind CONNECT tunnels carry no payload here (tunnel transparency is C04's subject); the tunnel is torn down by closing both ends",
 		},
 		RaceFiles: []string{"proxy.go", "context.go", "/mitm/"},
